@@ -63,4 +63,12 @@ proof fn axiom_clone_u8()
 #[verifier::external_body]
 pub struct ExDrain<'a, T: 'a, A: Allocator>(alloc::vec::Drain<'a, T, A>);
 
-pub assume_specification<T, A: Allocator, R: core::ops::RangeBounds<usize>>[ Vec::<T, A>::drain ](v: &mut Vec<T, A>, r: R) -> alloc::vec::Drain<'_, T, A>;
+// (A-iter) the Drain of the full range yields exactly the vector's former contents, in order, and behaves as a finite sequence;
+// the only call site (handle_data) drains `..`; for any other range type nothing is promised about what is yielded.
+pub uninterp spec fn range_is_full<R>(r: R) -> bool;
+pub broadcast axiom fn axiom_range_full(r: core::ops::RangeFull)
+    ensures #[trigger] range_is_full(r);
+pub assume_specification<'a, T, A: Allocator, R: core::ops::RangeBounds<usize>>[ Vec::<T, A>::drain ](v: &'a mut Vec<T, A>, r: R) -> (d: alloc::vec::Drain<'a, T, A>)
+    ensures
+        d.obeys_prophetic_iter_laws(),
+        range_is_full(r) ==> d.remaining() == old(v)@ && final(v)@.len() == 0;
